@@ -384,7 +384,7 @@ func hostKeys(rng *rand.Rand) []hostKeyCase {
 		// certificate host keys: the signature algorithm is the underlying one
 		for _, base := range []struct {
 			label, algo, sig string
-			s             ssh.Signer
+			s                ssh.Signer
 		}{{"ed25519-cert", ssh.CertAlgoED25519v01, ssh.KeyAlgoED25519, mk(ed)}, {"rsa-sha2-512-cert", ssh.CertAlgoRSASHA512v01, ssh.KeyAlgoRSASHA512, mk(rk)}} {
 			cert := &ssh.Certificate{Key: base.s.PublicKey(), CertType: ssh.HostCert, ValidBefore: ssh.CertTimeInfinity, KeyId: "c29"}
 			if err := cert.SignCert(rng, mk(ca)); err != nil {
@@ -494,6 +494,8 @@ func coarse(model string) string {
 	return "fail:own"
 }
 
-func isPanic(err error) bool { return err != nil && len(err.Error()) > 6 && err.Error()[:6] == "PANIC:" }
+func isPanic(err error) bool {
+	return err != nil && len(err.Error()) > 6 && err.Error()[:6] == "PANIC:"
+}
 
 var _ = testing.Short
